@@ -8,7 +8,7 @@ from esrally.track import loader
 
 from harness.common import concrete
 from symx import core
-from symx.core import fresh_bool, fresh_int, observe
+from symx.core import fresh_bool, fresh_int, observe, shadowed
 from symx.explore import Harness
 
 PROPERTY = "C10"
@@ -316,6 +316,92 @@ def template_params(sl):
         observe("the loaded track carries the substituted value", trk.challenges[0].schedule[0].operation.params["bulk-size"] == want)
 
 
+TRACK_TEMPLATE = """{% import "rally.helpers" as rally with context %}
+{
+  "version": VERSION,
+  "description": "verif track",
+  "indices": [{"name": "idx"}],
+  "operations": [ {{ rally.collect(parts="operations/*.json") }} ],
+  "schedule": [ {"operation": "bulk", "clients": {{ clients | default(2) }} }, {"operation": "force-merge", "clients": MINCLIENTS } ]
+}
+"""
+OPS_PART = """{"name": "bulk", "operation-type": "bulk", "bulk-size": {{ bulk_size | default(500) }} },
+{"name": "force-merge", "operation-type": "force-merge"}"""
+
+
+def file_reader_pipeline(sl):
+    """the whole TrackFileReader.read on a generated track directory: template assembly (rally.collect), rendering with track
+    parameters, version check, jsonschema validation, construction, reserved / unused parameter accounting"""
+    import os
+    import shutil
+    import tempfile
+
+    from harness.common import StubCfg
+
+    user = {}
+    bulk_given = bool(fresh_bool("bulk_size_given"))
+    if bulk_given:
+        user["bulk_size"] = [1, 1000][concrete(fresh_int("bulk_size_value", 0, 1))]
+    clients_given = bool(fresh_bool("clients_given"))
+    if clients_given:
+        user["clients"] = 4
+    unused = bool(fresh_bool("unused_parameter_given"))
+    if unused:
+        user["bulk_sise"] = 5
+    reserved = bool(fresh_bool("reserved_parameter_given"))
+    if reserved:
+        user[["glob", "now", "build_flavor"][concrete(fresh_int("which_reserved", 0, 2))]] = "x"
+    version = [2, 1, 3][concrete(fresh_int("track_version", 0, 2))]
+    schema_bad = bool(fresh_bool("schema_violation"))
+    d = tempfile.mkdtemp(prefix="verif-c10-")
+    try:
+        os.makedirs(os.path.join(d, "operations"))
+        with open(os.path.join(d, "track.json"), "w") as f:
+            f.write(TRACK_TEMPLATE.replace("VERSION", str(version)).replace("MINCLIENTS", "0" if schema_bad else "1"))
+        with open(os.path.join(d, "operations", "default.json"), "w") as f:
+            f.write(OPS_PART)
+        cfg = StubCfg({("node", "rally.root"): os.path.dirname(loader.__file__).rsplit(os.sep, 1)[0], ("track", "params"): user})
+
+        class Tmp:
+            @staticmethod
+            def NamedTemporaryFile(delete=False, suffix=""):
+                return tempfile.NamedTemporaryFile(delete=False, suffix=suffix, dir=d)
+
+        class Con:
+            @staticmethod
+            def println(*a, **k):
+                pass
+
+        with shadowed(loader, (), extra={"tempfile": Tmp, "console": Con}):
+            try:
+                trk = loader.TrackFileReader(cfg).read("verif", os.path.join(d, "track.json"), d)
+                how, err = "ret", None
+            except Exception as e:  # noqa: BLE001
+                trk, how, err = None, "raise", e
+    finally:
+        shutil.rmtree(d, ignore_errors=True)
+    causes = [c for c, on in (("version", version != 2), ("schema", schema_bad), ("reserved", reserved), ("unused", unused)) if on]
+    core.note("user params", user)
+    core.note("causes", causes)
+    core.note("outcome", (how, type(err).__name__ if err else None, str(err)[:120] if err else None))
+    core.trace("causes", len(causes))
+    if not causes:
+        observe("a valid track with valid parameters loads", how == "ret")
+        if how == "ret":
+            sched = trk.challenges[0].schedule
+            observe("track parameters are substituted into the templates (main file and collected parts), defaults otherwise",
+                    sched[0].clients == (4 if clients_given else 2) and sched[0].operation.params["bulk-size"] == (user["bulk_size"] if bulk_given else 500))
+            observe("included parts are assembled in", [t.operation.name for t in sched] == ["bulk", "force-merge"])
+        return
+    observe("a track file / parameter set that violates a rule is rejected, never loaded", how == "raise")
+    if how == "raise" and len(causes) == 1:
+        want = {"version": exceptions.RallyError, "schema": loader.TrackSyntaxError, "reserved": exceptions.TrackConfigError, "unused": exceptions.TrackConfigError}[causes[0]]
+        observe("rejected with the documented error type for '%s'" % causes[0], isinstance(err, want))
+        if causes[0] in ("reserved", "unused"):
+            bad = [k for k in user if k in ("glob", "now", "build_flavor", "bulk_sise")]
+            observe("the error names the offending parameter", all(b in str(err) for b in bad))
+
+
 READS = [loader.TrackSpecificationReader.__call__, loader.TrackSpecificationReader._create_challenges, loader.TrackSpecificationReader._get_challenge_specs,
          loader.TrackSpecificationReader.parse_parallel, loader.TrackSpecificationReader.parse_task, loader.TrackSpecificationReader.parse_operations,
          loader.TrackSpecificationReader.parse_operation, loader.TrackSpecificationReader._create_corpora, track.Task.__init__,
@@ -350,6 +436,11 @@ HARNESSES = [
             lambda tier: [{"kind": k} for k in ("operations", "corpora", "tasks-sequential", "tasks-across-parallel", "tasks-within-parallel", "tasks-default-names")],
             reads=READS, assumptions=OUT, doc="duplicate operation, corpus and task names"),
     Harness("operation_types", operation_types, "bounded-exhaustive", lambda tier: [{}], reads=READS, doc="operation type registry round trip (finite, complete)"),
+    Harness("file_reader_pipeline", file_reader_pipeline, "bounded-exhaustive", lambda tier: [{}], reads=READS + [loader.TrackFileReader.read, loader.render_template_from_file,
+                                                                                                          loader.CompleteTrackParams, loader.register_all_params_in_track],
+            assumptions=["runs on a real temporary directory (created and removed per path) with the real Jinja2, json and jsonschema: a finite family, no symbolic strings"],
+            bounds={"track parameters": "bulk_size / clients given or not, an unused (misspelt) and a reserved parameter given or not", "track file": "version 1/2/3, one schema violation or none"},
+            doc="end-to-end TrackFileReader.read: substitution, rally.collect, version, schema, reserved and unused parameters"),
     Harness("template_params", template_params, "bounded-exhaustive", lambda tier: [{"construct": c} for c in CONSTRUCTS], reads=READS + [loader.render_template, loader.default_internal_template_vars],
             assumptions=["Jinja2 and json run concretely on a finite family of templates (no symbolic strings): this harness only ties the rendering stage to the reader for the listed constructs"],
             bounds={"constructs": sorted(CONSTRUCTS), "parameter": "absent / 0 / 1 / 1000 / 65536; an unrelated parameter and an attempt to override an internal variable present or not"},
